@@ -33,10 +33,11 @@ Record cdesc := CD {
   c_lazy : bool;                  (* Config.lazy_compilation *)
   c_dsup : bool;                  (* ADD_DIALECT_SUPPORT *)
   c_fmts : list (nat * nat);      (* (unpack format, pack format) compiled at class creation; [] = plain dataclass *)
-  c_fields : list field           (* dataclass-valued positions incl. inherited ones, in field order *)
+  c_fields : list field;          (* dataclass-valued positions incl. inherited ones, in field order *)
+  c_parent : option cid           (* the dataclass this class inherits from (single inheritance chain) *)
 }.
 Definition fam := list cdesc.
-Definition dflt_c := CD false false [] [].
+Definition dflt_c := CD false false [] [] None.
 Definition cls (F: fam) (c: cid) : cdesc := nth c F dflt_c.
 
 Inductive meth :=
@@ -94,6 +95,20 @@ Definition cache_store (st: state) (c: cid) (m: mname) (d: did) (x: meth) : stat
   end.
 Definition bind (st: state) (c: cid) : state := ST (slots st) (caches st) (c :: bound st).
 Definition is_bound (st: state) (c: cid) : bool := existsb (Nat.eqb c) (bound st).
+
+(* attribute lookup of a generated method on class c: the class' own __dict__ first, then its ancestors' (MRO).
+   [get_slot] is the own-__dict__ test used by the builders (get_class_that_defines_method(..) != cls);
+   [mro_slot] is what `value.__mashumaro_m__` / `K.__mashumaro_m__` evaluates to at run time *)
+Fixpoint mro_walk (F: fam) (n: nat) (st: state) (c: cid) (m: mname) : option meth :=
+  match get_slot st c m with
+  | Some x => Some x
+  | None =>
+      match n with
+      | 0 => None
+      | S n' => match c_parent (cls F c) with Some p => mro_walk F n' st p m | None => None end
+      end
+  end.
+Definition mro_slot (F: fam) (st: state) (c: cid) (m: mname) : option meth := mro_walk F (length F) st c m.
 
 Inductive exc := EAttrCache | EAttrMeth | EUnresolved | EBuildCycle.
 
@@ -202,7 +217,9 @@ Section Build.
     match fuel with
     | 0 => (st, DOOF)
     | S fuel' =>
-      match get_slot st c m with
+      (* run-time attribute lookup (MRO); the function found runs with cls = c: an inherited STUB compiles the
+         method for c itself, an inherited COMPILED method runs the ancestor's body on c's data *)
+      match mro_slot F st c m with
       | None => (st, DExc EAttrMeth)
       | Some mt =>
           match d with
